@@ -105,7 +105,11 @@ type plan struct {
 	// whole direction as before
 	MixC2S []int `json:"mixC2S,omitempty"`
 	MixS2C []int `json:"mixS2C,omitempty"`
-	Seed          uint64 `json:"seed"`
+	// Splice (round 6): the relay is not a bare copy between server conn A and client conn B but
+	// runs a pre-splice program per direction and/or joins two conns of the same role; see
+	// splice_test.go. nil = the plain relay (or no relay) as before.
+	Splice *spliceSpec `json:"splice,omitempty"`
+	Seed   uint64      `json:"seed"`
 }
 
 const maxChunk = 0xFFFF
@@ -182,9 +186,17 @@ func firstWriteCap(c cfgClass) int {
 	return min(maxChunk, writeBufCap-16-start)
 }
 
-func drawPlan(rt *rapid.T) (p plan, nearConst bool) {
+func drawPlan(rt *rapid.T) (p plan, nearConst bool) { return drawPlanMode(rt, false) }
+
+// drawPlanMode: with forceSplice every plan goes through a relay with a splice program and the
+// long nonce-carry bursts are left out (they are the business of the plain property).
+func drawPlanMode(rt *rapid.T, forceSplice bool) (p plan, nearConst bool) {
 	p.Cls = drawCls(rt, "a")
-	p.Relay = rapid.SampledFrom([]int{0, 0, 0, 1, 2}).Draw(rt, "relay")
+	if forceSplice {
+		p.Relay = rapid.SampledFrom([]int{1, 2}).Draw(rt, "relay")
+	} else {
+		p.Relay = rapid.SampledFrom([]int{0, 0, 0, 1, 2}).Draw(rt, "relay")
+	}
 	if p.Relay != 0 {
 		p.Cls2 = drawCls(rt, "b")
 	}
@@ -223,7 +235,11 @@ func drawPlan(rt *rapid.T) (p plan, nearConst bool) {
 	}
 	// long sessions: many tiny writes in one direction so the per-direction nonce counter passes
 	// 255 (first carry) and, rarely, 65535 (second carry); two seals per chunk
-	switch rapid.IntRange(0, 63).Draw(rt, "burst") {
+	burst := rapid.IntRange(0, 63).Draw(rt, "burst")
+	if forceSplice {
+		burst = 63
+	}
+	switch burst {
 	case 0, 1, 2, 3, 4, 5:
 		n := rapid.IntRange(130, 400).Draw(rt, "burstN")
 		tiny := make([]int, n)
@@ -265,6 +281,9 @@ func drawPlan(rt *rapid.T) (p plan, nearConst bool) {
 	}
 	p.CancelDialCtx = rapid.Bool().Draw(rt, "cancelDialCtx")
 	p.Seed = rapid.Uint64().Draw(rt, "seed")
+	if p.Relay != 0 && (forceSplice || rapid.Bool().Draw(rt, "splice")) {
+		p.Splice = drawSplice(rt, &p)
+	}
 	return p, nearConst
 }
 
@@ -274,6 +293,9 @@ func drawPlan(rt *rapid.T) (p plan, nearConst bool) {
 func hangBudget(p plan) time.Duration {
 	writes := len(p.C2S) + len(p.S2C)
 	bytes := p.Payload + sum(p.C2S) + sum(p.S2C)
+	if p.Splice != nil {
+		bytes += p.Splice.P2 + p.Splice.Up.Greet + p.Splice.Down.Greet
+	}
 	return 90*time.Second + time.Duration(writes)*20*time.Millisecond + time.Duration(bytes/1024)*10*time.Millisecond
 }
 
@@ -325,6 +347,9 @@ func smallBuf(bufs []int) bool {
 // runPlan executes one plan against the real client and server and returns nil if the
 // property held, or the violation.
 func runPlan(p plan) (res *outcome, labels []string) {
+	if p.Splice != nil {
+		return runSplicePlan(p)
+	}
 	ctx := context.Background()
 	logger := zap.NewNop()
 	target := p.Target.addr()
@@ -675,7 +700,8 @@ var rec = ev.New("C01", "tunnel-ledger",
 		"Non-trivial: bytes>0 both ways AND (a length within +-3 of a structural constant, or a read buffer smaller than a chunk, or a fragment boundary inside a length chunk, or relay topology). "+
 		"Distinct key: config class + topology + paths + order + boundary classes of payload/write lengths").
 	Require("relay", "eih>=2", "prefix>64KiB", "payload-over-room", "leftover-read", "frag-inside-length-chunk", "path-readfrom", "path-writeto", "server-first", "duplex", "readfrom-source-zero-length-reads", "dial-context-cancelled-after-dial", "dial-context-cancelled-after-excess-payload-write", "nonce-first-carry(>255 seals)", "nonce-second-carry(>65535 seals)", "readfrom-source-eof-with-data", "addr-rechecked-after-server-write", "multi-chunk", "not-segmented", "domain>=254",
-		"mixed-write-side-operations", "server-first-op-is-empty-readfrom-then-data", "server-first-op-is-failing-readfrom-then-data", "client-first-op-is-dataless-readfrom-then-data")
+		"mixed-write-side-operations", "server-first-op-is-empty-readfrom-then-data", "server-first-op-is-failing-readfrom-then-data", "client-first-op-is-dataless-readfrom-then-data",
+		"relay-acts-before-splice", "relay-joins-same-role-conns")
 
 // compactPlan shortens very long write lists for the evidence samples.
 func compactPlan(p plan) map[string]any {
@@ -714,6 +740,10 @@ func planKey(p plan) string {
 	if p.Relay != 0 {
 		sb.WriteString("|" + p.Cls2.key())
 	}
+	if p.Splice != nil {
+		up, down := spliceDirs(p)
+		fmt.Fprintf(&sb, "|splice:t%d/%s/%s/%s/P%s", p.Splice.Topo, joinName(p.Splice.Join), up, down, lenClass(p.Splice.P2))
+	}
 	fmt.Fprintf(&sb, "|%s%d|P%s|w%d%d%d%d|o%d|c%v|", p.Target.Kind, p.Target.DomLen/64, lenClass(p.Payload), p.WPathC, p.RPathS, p.WPathS, p.RPathC, p.Order*2+b2i(p.Duplex), p.Coalesce)
 	for i, w := range p.C2S {
 		if i >= 6 {
@@ -742,6 +772,11 @@ func classify(p plan, near bool, extra []string) (labels []string, nt bool) {
 		}
 	}
 	add(p.Relay != 0, "relay")
+	if p.Splice != nil {
+		s := p.Splice.normalised(p)
+		add(s.Up.Greet > 0 || s.Down.Greet > 0 || s.Up.PreRead > 0 || s.Down.PreRead > 0, "relay-acts-before-splice")
+		add(s.Topo != topoChain, "relay-joins-same-role-conns")
+	}
 	add(p.Cls.EIH >= 2 || (p.Relay != 0 && p.Cls2.EIH >= 2), "eih>=2")
 	add(p.Cls.ReqPrefix > 65536 || p.Cls.RespPrefix > 65536, "prefix>64KiB")
 	add(p.Payload > room, "payload-over-room")
@@ -790,18 +825,35 @@ func classify(p plan, near bool, extra []string) (labels []string, nt bool) {
 	}
 	add(first > firstWriteCap(p.Cls), "first-write>capacity")
 	both := p.Payload+sum(p.C2S) > 0 && sum(p.S2C) > 0
+	if p.Splice != nil && p.Splice.Topo == topoClients {
+		// the relay dialed both tunnels: the applications' own bytes are the writes only
+		both = sum(p.C2S) > 0 && sum(p.S2C) > 0
+	}
 	nt = both && (near || left || cut || p.Relay != 0)
 	return
 }
 
 func TestTunnelLedger(t *testing.T) { rapid.Check(t, tunnelProp) }
 
+// TestSpliceLedger: the same property with every plan going through a relay that acts on its two
+// tunnel conns before splicing them, or splices two conns of the same role (round 6).
+func TestSpliceLedger(t *testing.T) {
+	rapid.Check(t, func(rt *rapid.T) { ledgerProp(rt, true, recSplice) })
+}
+
 // FuzzTunnel drives the same property with Go's coverage-guided fuzzer (thorough tier).
 func FuzzTunnel(f *testing.F) { f.Fuzz(rapid.MakeFuzz(tunnelProp)) }
 
-func tunnelProp(rt *rapid.T) {
+func tunnelProp(rt *rapid.T) { ledgerProp(rt, false, rec) }
+
+func ledgerProp(rt *rapid.T, forceSplice bool, rec *ev.Recorder) {
 	{
-		p, near := drawPlan(rt)
+		p, near := drawPlanMode(rt, forceSplice)
+		if _, excl := spliceKnownExcluded(p); excl {
+			// would only re-trigger a listed finding whose symptom can end the process
+			rec.Excluded(1)
+			return
+		}
 		type result struct {
 			o      *outcome
 			labels []string
